@@ -1315,6 +1315,25 @@ func (rn *runner) history(t *Target, name string, steps int) {
 	m, _ := t.build(name, randMessage(rn.r, md, genOpts{requiredAlways: true}))
 	var log []string
 	var scratch []byte
+	var codec csproto.GrpcCodec
+	// every Marshal result handed out so far: it belongs to the caller and must not change when the message
+	// (or any other) is marshaled again
+	type heldOut struct {
+		live, snap []byte
+		how        string
+	}
+	var held []heldOut
+	heldIntact := func(step int) bool {
+		for _, h := range held {
+			if !bytes.Equal(h.live, h.snap) {
+				desc := map[string]interface{}{"type": t.where(name), "history": strings.Join(log, " ; ")}
+				Violation("C09", "histories", "stale-state/earlier-result-overwritten", "the bytes returned by an earlier "+h.how+" changed after later calls: they are no longer the bytes of the contents at the time of that call", desc, hx(h.snap), hx(h.live))
+				Count("histories", fmt.Sprint(desc), "overwritten", step, true)
+				return false
+			}
+		}
+		return true
+	}
 	expected := func() ([]byte, bool) {
 		// marshal a fresh deep copy of the current contents
 		cp := t.deepCopy(name, m)
@@ -1355,30 +1374,88 @@ func (rn *runner) history(t *Target, name string, steps int) {
 		case 0, 1, 2:
 			log = append(log, "mutate("+mutateStruct(rn.r, reflect.ValueOf(m))+")")
 		case 3:
+			if rn.r.Bool() {
+				log = append(log, "csproto.Size")
+				safeCall(func() { csproto.Size(m) })
+				break
+			}
 			log = append(log, "Size")
 			safeCall(func() { m.(FM).Size() })
 		case 4:
 			log = append(log, "runtime.Size+Marshal")
 			safeCall(func() { t.runtimeSizeMarshal(m) })
 		case 5:
-			log = append(log, "Unmarshal(other)")
 			other := refBytes(randMessage(rn.r, md, genOpts{requiredAlways: true}))
-			safeCall(func() { m.(FM).Unmarshal(other) })
+			what := "other"
+			if rn.r.Bool() {
+				// … written by a newer schema: carries a field this schema does not define
+				other = append(other, emitRecs([]rec{randUnknown(rn.r, md)})...)
+				what = "other+unknown field"
+			}
+			switch rn.r.Intn(3) {
+			case 0:
+				log = append(log, "Unmarshal("+what+")")
+				safeCall(func() { m.(FM).Unmarshal(other) })
+			case 1:
+				log = append(log, "csproto.Unmarshal("+what+")")
+				safeCall(func() { csproto.Unmarshal(other, m) })
+			default:
+				log = append(log, "GrpcCodec.Unmarshal("+what+")")
+				safeCall(func() { codec.Unmarshal(other, m) })
+			}
 		case 6:
+			if rn.r.Bool() {
+				log = append(log, "csproto.Reset")
+				safeCall(func() { csproto.Reset(m) })
+				break
+			}
 			log = append(log, "Reset")
 			safeCall(func() { m.(resetter).Reset() })
+		}
+		if op == 6 {
+			// whichever way it was reset: the contents now are those of a new message (nothing of the earlier
+			// life — fields, extensions, unknown fields — is left to be marshaled)
+			left, lerr := t.readBack(name, m)
+			empty, eerr := t.readBack(name, t.Messages[name].New())
+			if lerr == nil && eerr == nil && !bytes.Equal(left, empty) {
+				desc := map[string]interface{}{"type": t.where(name), "history": strings.Join(log, " ; ")}
+				Violation("C09", "histories", "stale-state/reset-leaves-contents", "after Reset the message still holds data of its earlier contents, which every later Marshal emits", desc, hx(empty), hx(left))
+				Count("histories", fmt.Sprint(desc), "stale", i, true)
+				return
+			}
+		}
+		switch op {
 		case 7:
+			if rn.r.Bool() {
+				log = append(log, "csproto.Clone")
+				var cp interface{}
+				safeCall(func() { cp = csproto.Clone(m) })
+				if _, ok := cp.(FM); ok && reflect.TypeOf(cp) == reflect.TypeOf(m) && !reflect.ValueOf(cp).IsNil() {
+					m = cp
+				}
+				break
+			}
 			log = append(log, "Clone")
 			if cp := t.runtimeClone(m); cp != nil {
 				m = cp
 			}
 		default:
-			log = append(log, "Marshal")
+			how := []string{"Marshal", "csproto.Marshal", "GrpcCodec.Marshal"}[rn.r.Intn(3)]
+			log = append(log, how)
 			want, ok := expected()
 			var got []byte
 			var err error
 			desc := map[string]interface{}{"type": t.where(name), "history": strings.Join(log, " ; ")}
-			if p := safeCall(func() { got, err = m.(FM).Marshal() }); p != "" {
+			if p := safeCall(func() {
+				switch how {
+				case "csproto.Marshal":
+					got, err = csproto.Marshal(m)
+				case "GrpcCodec.Marshal":
+					got, err = codec.Marshal(m)
+				default:
+					got, err = m.(FM).Marshal()
+				}
+			}); p != "" {
 				Violation("C09", "histories", "stale-state/marshal-panic", "Marshal() panicked after a history of mutations and Size/Marshal calls", desc, "no panic", p)
 				Count("histories", fmt.Sprint(desc), "panic", i, true)
 				return
@@ -1388,9 +1465,103 @@ func (rn *runner) history(t *Target, name string, steps int) {
 				Count("histories", fmt.Sprint(desc), "stale", i, true)
 				return
 			}
+			if err == nil {
+				if !heldIntact(i) {
+					return
+				}
+				held = append(held, heldOut{live: got, snap: append([]byte{}, got...), how: how})
+			}
 		}
 	}
+	if !heldIntact(steps) {
+		return
+	}
 	Count("histories", t.where(name)+strings.Join(log, ";"), "ok", steps, true)
+}
+
+// helperPointers: csproto.Bool / Int32 / … / String hand out the pointers that optional fields are assigned
+// with. Two messages built through them must not share memory: writing through a field of one (`*a.F = x`, a
+// legal mutation of a) must leave the bytes of the other unchanged, and a third message built afterwards with
+// the same arguments must marshal like the second did.
+func (rn *runner) helperPointers(t *Target, name string) {
+	type slot struct {
+		idx int
+		mk  func() reflect.Value // pointer from the csproto helper
+		wr  func(p reflect.Value) // write another value through the pointer
+	}
+	probe := reflect.ValueOf(t.Messages[name].New()).Elem()
+	var slots []slot
+	for i := 0; i < probe.NumField(); i++ {
+		sf := probe.Type().Field(i)
+		if sf.PkgPath != "" || sf.Type.Kind() != reflect.Ptr || sf.Type.Elem().PkgPath() != "" {
+			continue
+		}
+		var sl slot
+		sl.idx = i
+		switch sf.Type.Elem().Kind() {
+		case reflect.Bool:
+			sl.mk = func() reflect.Value { return reflect.ValueOf(csproto.Bool(true)) }
+			sl.wr = func(p reflect.Value) { p.Elem().SetBool(false) }
+		case reflect.Int32:
+			sl.mk = func() reflect.Value { return reflect.ValueOf(csproto.Int32(7)) }
+			sl.wr = func(p reflect.Value) { p.Elem().SetInt(-9) }
+		case reflect.Int64:
+			sl.mk = func() reflect.Value { return reflect.ValueOf(csproto.Int64(7)) }
+			sl.wr = func(p reflect.Value) { p.Elem().SetInt(-9) }
+		case reflect.Uint32:
+			sl.mk = func() reflect.Value { return reflect.ValueOf(csproto.Uint32(7)) }
+			sl.wr = func(p reflect.Value) { p.Elem().SetUint(300) }
+		case reflect.Uint64:
+			sl.mk = func() reflect.Value { return reflect.ValueOf(csproto.Uint64(7)) }
+			sl.wr = func(p reflect.Value) { p.Elem().SetUint(300) }
+		case reflect.Float32:
+			sl.mk = func() reflect.Value { return reflect.ValueOf(csproto.Float32(1.5)) }
+			sl.wr = func(p reflect.Value) { p.Elem().SetFloat(-2) }
+		case reflect.Float64:
+			sl.mk = func() reflect.Value { return reflect.ValueOf(csproto.Float64(1.5)) }
+			sl.wr = func(p reflect.Value) { p.Elem().SetFloat(-2) }
+		case reflect.String:
+			sl.mk = func() reflect.Value { return reflect.ValueOf(csproto.String("s")) }
+			sl.wr = func(p reflect.Value) { p.Elem().SetString("changed") }
+		default:
+			continue
+		}
+		slots = append(slots, sl)
+	}
+	if len(slots) == 0 {
+		return
+	}
+	mk := func() interface{} {
+		m := t.Messages[name].New()
+		v := reflect.ValueOf(m).Elem()
+		for _, sl := range slots {
+			v.Field(sl.idx).Set(sl.mk())
+		}
+		return m
+	}
+	a, b := mk(), mk()
+	var snap []byte
+	var err error
+	if p := safeCall(func() { snap, err = csproto.Marshal(b) }); p != "" || err != nil {
+		return
+	}
+	desc := map[string]interface{}{"type": t.where(name), "history": "a, b := messages whose optional scalar fields are assigned with csproto.Bool(true), csproto.Int32(7), …; csproto.Marshal(b); *a.<every field> = another value; csproto.Marshal(b); c := built like b; csproto.Marshal(c)"}
+	for _, sl := range slots {
+		sl.wr(reflect.ValueOf(a).Elem().Field(sl.idx))
+	}
+	outcome := "ok"
+	var now, fresh []byte
+	safeCall(func() { now, _ = csproto.Marshal(b) })
+	safeCall(func() { fresh, _ = csproto.Marshal(mk()) })
+	switch {
+	case !bytes.Equal(now, snap):
+		outcome = "shared"
+		Violation("C09", "helpers", "helpers/shared-pointer", "mutating message a through its own field pointers changed what Marshal returns for message b, which nobody touched (the pointer helpers hand out shared memory)", desc, hx(snap), hx(now))
+	case !bytes.Equal(fresh, snap):
+		outcome = "poisoned"
+		Violation("C09", "helpers", "helpers/poisoned", "a message built with the same helper calls as before marshals differently after an unrelated message was mutated", desc, hx(snap), hx(fresh))
+	}
+	Count("helpers", t.where(name), outcome, len(slots), true)
 }
 
 func (t *Target) deepCopy(name string, m interface{}) interface{} {
@@ -1525,6 +1696,7 @@ func (rn *runner) runHistories(ts []*Target, n int) {
 			for i := 0; i < n; i++ {
 				rn.history(t, name, 4+rn.r.Intn(9))
 			}
+			rn.helperPointers(t, name)
 			if t.Runtime == "gogo" {
 				for i := 0; i < n; i++ {
 					rn.plainHistory(t, name)
